@@ -43,6 +43,8 @@ def plan(tier, seed):
     cases += [{'family': 'edge_templates', 'cseed': rnd.randrange(1 << 30)} for _ in range(50 if tier == 'quick' else 1500)]
     # wide groups (11-16 structurally identical nodes, also with a single-node type): default vectorized build included
     cases += [{'family': 'wide', 'cseed': rnd.randrange(1 << 30)} for _ in range(30 if tier == 'quick' else 600)]
+    # update_var overrides (arrays over nodes that share a node template object, wildcards)
+    cases += [{'family': 'overrides', 'cseed': rnd.randrange(1 << 30)} for _ in range(30 if tier == 'quick' else 600)]
     for feat in ET_FOCUS:
         fam = 'probe:' + feat if feat in opened else 'edge_templates'
         cases += [{'family': fam, 'cseed': rnd.randrange(1 << 30), 'want': feat} for _ in range(k)]
@@ -94,7 +96,39 @@ def make_spec(case, opened):
         return gen.gen_net(rnd, pool=pool, allow=lambda s, f, r: want in r, forbid=others,
                            edge_density=rnd.choice([0.3, 0.6, 1.0]), n_nodes=rnd.choice([2, 3, 4, 5]))
     pool = gen.VAR_POOL if 'name_like_edge_local' not in opened else gen.MAIN_POOL
-    return gen.gen_net(rnd, pool=pool, forbid=opened)
+    spec, f, r = gen.gen_net(rnd, pool=pool, forbid=opened)
+    if fam == 'overrides' or rnd.random() < 0.12:
+        add_overrides(spec, rnd)
+        f, r = gen.features(spec)
+        f = sorted(set(f) | ({'update_var_overrides'} if spec.get('updates') else set()))
+    return spec, f, r
+
+
+def add_overrides(spec, rnd):
+    """update_var overrides (scalars and per-node arrays, single paths and wildcards) on constants and initial values: the returned
+    argument values must be the overridden ones"""
+    from vp.ref import RefModel as _R, match_nodes
+    ref0 = _R(spec)
+    vals = gen.Vals(rnd)
+    for o in spec['ops'].values():
+        for v, d in o['vars'].items():
+            vals.used.add(d[1])
+    cands = [k for k in ref0.kind if ref0.kind[k] in ('const', 'state')]
+    ups = []
+    for _ in range(rnd.randint(1, 3)):
+        n, op, v = rnd.choice(cands)
+        parts = n.split('/')
+        if rnd.random() < 0.6:
+            parts = ['all'] * len(parts) if rnd.random() < 0.5 else parts[:-1] + ['all']
+        targets = [t for t in match_nodes(ref0.node_order, parts) if (t, op, v) in ref0.kind]
+        if not targets or any(u[0] == '/'.join(parts + [op, v]) for u in ups):
+            continue
+        if len(targets) > 1 and rnd.random() < 0.7:
+            ups.append(['/'.join(parts + [op, v]), [vals.new() for _ in targets]])
+        else:
+            ups.append(['/'.join(parts + [op, v]), vals.new()])
+    if ups:
+        spec['updates'] = ups
 
 
 def run_case(case, ctx):
@@ -122,7 +156,7 @@ def run_case(case, ctx):
         from vp.props import c04
         c04_open = open_risks('C04')
         vrisk = c04.vec_risks(spec) | (set(risk) & {'vec_partial_input_default'})
-        if 'several_nodes_per_type' in feats and not (vrisk & c04_open) and 'edge_template' not in feats \
+        if 'several_nodes_per_type' in feats and not (vrisk & c04_open) and 'edge_template' not in feats and not spec.get('updates') \
                 and (case.get('family') == 'wide' or rnd.random() < 0.4):
             # merged variables are located by value fingerprinting: give every node its own initial values / constants
             spec_v = gen.individualize(spec, random.Random(case['cseed'] + 3), params=rnd.choice(['different', 'equal']))
